@@ -589,6 +589,8 @@ class Taint:
             S = s.sum_locals(b, R)
             if S and "hi" in s.cmp_bounds(b, bb, S):
                 out.add("hi")
+            elif S and s._sum_filtered(b, bb, S):
+                out.add("hi")
         if depth < 10:
             defs = prov.build_defs(b).get(l, ())
             per = []
@@ -599,6 +601,21 @@ class Taint:
                 out |= common
         _memo[key] = out
         return out
+
+    def _sum_filtered(s, b, bb, S):
+        """the checked sum in S went through `.filter(|&n| n <= LIMIT)` and control is where the
+        filtered Option was found to be Some (`?` after ok_or, a match / if let)"""
+        for i, t in b.calls():
+            if re.search(r"^std::option::Option::<u(8|16|32|64|128|size)>::filter::<", t["f"] or "") and t["a"] and not op_is_const(t["a"][0]) and t.get("clos"):
+                if not (s.copy_roots(b, t["a"][0]) & S) and op_local(t["a"][0]) not in S:
+                    continue
+                cb = s.prog.bodies.get(t["clos"][-1])
+                if cb is None or "hi" not in _filter_closure_bounds(cb):
+                    continue
+                rs = shared.result_switch(b, i)
+                if rs and any(bb == o or bb in cfg.edge_dom_set(b, rs["sw"], o) for o in rs["ok"]):
+                    return True
+        return False
 
     def _nonneg_origin(s, b, l):
         P = prov.origins(b, l, deep=True)
@@ -697,6 +714,12 @@ class Taint:
             return out
         if re.search(r"::clamp$", f):
             return {"hi", "lo"}
+        # `checked_sum.filter(|&n| n <= LIMIT)`: what comes out as Some is below the limit
+        if re.search(r"^std::option::Option::<[ui](8|16|32|64|128|size)>::filter::<", f) and args and x.get("clos"):
+            A = set(B(args[0]))
+            cb = s.prog.bodies.get(x["clos"][-1])
+            got = _filter_closure_bounds(cb) if cb is not None else set()
+            return A | got
         if re.search(r"::(unsigned_abs|abs)$", f) and args:
             A = B(args[0])
             return ({"hi"} if {"hi", "lo"} <= A else set()) | {"lo", "nonneg"}
@@ -709,7 +732,7 @@ class Taint:
             return {"hi", "lo", "nonneg"}
         if UNTAINT.search(f):
             return {"hi", "lo", "nonneg"}
-        if (prov.PASS_THROUGH.search(f) and not re.search(r"HashMap|Mutex|RwLock", f)) or re.search(r"::(unwrap_or|unwrap_or_default|try_from|from|into)(::<.*>)?$", f):
+        if (prov.PASS_THROUGH.search(f) and not re.search(r"HashMap|Mutex|RwLock", f)) or re.search(r"::(unwrap_or|unwrap_or_default|try_from|from|into|ok_or|ok_or_else)(::<.*>)?$", f):
             if args and not op_is_const(args[0]) and is_carrier(b.locals[op_place(args[0])["l"]]):
                 return set(B(args[0]))
             return set()
@@ -731,6 +754,39 @@ NEED = {
     "DivisionByZero": ("nonzero",), "RemainderByZero": ("nonzero",), "BoundsCheck": ("hi",),
     "index": ("hi",), "alloc": ("hi",), "duration-from-float": ("hi", "lo"), "time-arith": ("hi",), "sleep": ("hi",),
 }
+
+
+def _filter_closure_bounds(cb):
+    """bounds a predicate closure `|&n| n <= CONST` (`<`, `>=`, `>` likewise) puts on what passes:
+    the closure is a single comparison of its argument with a constant, returned as it is"""
+    cmps = []
+    for bb in cb.bbs:
+        if bb.get("cleanup"):
+            continue
+        if bb["t"]["k"] not in ("return", "goto"):
+            return set()
+        for st in bb["s"]:
+            if st["k"] == "=" and st["r"]["k"] == "bin" and st["r"]["op"] in ("Le", "Lt", "Ge", "Gt"):
+                cmps.append(st)
+    if len(cmps) != 1:
+        return set()
+    st = cmps[0]; r = st["r"]
+    if st["l"]["p"] or st["l"]["l"] != 0:
+        # must be the returned value itself (possibly through one copy)
+        dst = st["l"]["l"]
+        if not any(s2["k"] == "=" and s2["l"]["l"] == 0 and not s2["l"]["p"] and s2["r"]["k"] == "use" and not op_is_const(s2["r"]["o"]) and op_place(s2["r"]["o"])["l"] == dst and not op_place(s2["r"]["o"])["p"] for bb in cb.bbs for s2 in bb["s"]):
+            return set()
+    def from_arg(o):
+        if op_is_const(o):
+            return False
+        P = prov.operand_origins(cb, o)
+        return 2 in P.params()
+    a, c = r["a"], r["b"]
+    if from_arg(a) and op_is_const(c):
+        return {"hi"} if r["op"] in ("Le", "Lt") else {"lo"}
+    if op_is_const(a) and from_arg(c):
+        return {"hi"} if r["op"] in ("Ge", "Gt") else {"lo"}
+    return set()
 
 
 def sink_guarded(T, b, bb, o, what, other=None):
@@ -1087,11 +1143,21 @@ def range_order_known(T, b, bb, start, end):
     # (b) end is an unsigned sum one of whose addends is start (`offset.checked_add(len)` matched
     # through `Some(n) if n <= LIMIT => n`): start <= end by construction
     Pe = prov.operand_origins(b, end, stop_calls=re.compile(r"::(checked_add|saturating_add)$"))
-    for r in Pe.roots:
+    work = list(Pe.roots); seen_r = set()
+    while work:
+        r = work.pop()
+        if r in seen_r:
+            continue
+        seen_r.add(r)
         if r[0] == "call" and re.search(r"impl u(8|16|32|64|128|size)>::(checked_add|saturating_add)$", r[1]):
             tt = b.term(r[2])
             if any((not op_is_const(a)) and ((T.copy_roots(b, a) | T.cast_siblings(b, a)) & Rs) for a in tt["a"]):
                 return True
+        elif r[0] == "call" and re.search(r"^std::option::Option::<u(8|16|32|64|128|size)>::(filter|ok_or|ok_or_else)::<", r[1]):
+            # `sum.filter(|&n| n <= LIMIT).ok_or_else(..)?`: the Some payload is the sum itself
+            tt = b.term(r[2])
+            if tt["a"] and not op_is_const(tt["a"][0]):
+                work += list(prov.operand_origins(b, tt["a"][0], stop_calls=re.compile(r"::(checked_add|saturating_add)$")).roots)
     # (b) end derived from start
     P = prov.operand_origins(b, end, deep=True)
     sl = op_place(start)["l"]
